@@ -2609,6 +2609,109 @@ impl WriteTransaction {
     }
 }
 
+#[cfg(redb_verif)]
+impl WriteTransaction {
+    /// Verification hook: page accounting as this transaction sees it. Meant to be called on a
+    /// transaction that has not modified anything; does not modify anything itself.
+    pub fn verif_accounting(&self) -> Result<crate::verif::Accounting> {
+        fn p(page: PageNumber) -> crate::verif::Page {
+            (page.region, page.page_index, page.page_order)
+        }
+        let mut acc = crate::verif::Accounting::default();
+        self.mem.verif_fill_accounting(&mut acc);
+        self.tables
+            .lock()
+            .unwrap()
+            .table_tree
+            .visit_all_pages(|path| {
+                acc.data_tree.push(p(path.page_number()));
+                Ok(())
+            })?;
+        self.system_tables
+            .lock()
+            .unwrap()
+            .table_tree
+            .visit_all_pages(|path| {
+                acc.system_tree.push(p(path.page_number()));
+                Ok(())
+            })?;
+        let read_list = |table: &Btree<TransactionIdWithPagination, PageList>| {
+            let mut result: Vec<(u64, Vec<crate::verif::Page>)> = vec![];
+            for entry in table.range::<RangeFull, TransactionIdWithPagination>(&..)? {
+                let entry = entry?;
+                let id = entry.key().transaction_id;
+                let value = entry.value();
+                let mut pages = vec![];
+                for i in 0..value.len() {
+                    pages.push(p(value.get(i)));
+                }
+                if let Some(last) = result.last_mut()
+                    && last.0 == id
+                {
+                    last.1.extend(pages);
+                } else {
+                    result.push((id, pages));
+                }
+            }
+            Ok(result)
+        };
+        acc.data_freed = self
+            .read_existing_system_table(DATA_FREED_TABLE, read_list)?
+            .unwrap_or_default();
+        acc.system_freed = self
+            .read_existing_system_table(SYSTEM_FREED_TABLE, read_list)?
+            .unwrap_or_default();
+        acc.data_allocated = self
+            .read_existing_system_table(DATA_ALLOCATED_TABLE, read_list)?
+            .unwrap_or_default();
+        acc.txn_freed_data = self
+            .tables
+            .lock()
+            .unwrap()
+            .freed_pages
+            .lock()
+            .unwrap()
+            .iter()
+            .map(|x| p(*x))
+            .collect();
+        acc.txn_freed_system = self
+            .system_tables
+            .lock()
+            .unwrap()
+            .freed_pages
+            .lock()
+            .unwrap()
+            .iter()
+            .map(|x| p(*x))
+            .collect();
+        Ok(acc)
+    }
+
+    /// Verification hook: the id of this transaction
+    pub fn verif_id(&self) -> u64 {
+        self.transaction_id.raw_id()
+    }
+}
+
+#[cfg(redb_verif)]
+impl ReadTransaction {
+    /// Verification hook: every page reachable from this transaction's data root
+    pub fn verif_pages(&self) -> Result<Vec<crate::verif::Page>> {
+        let mut pages = vec![];
+        self.tree.visit_all_pages(|path| {
+            let page = path.page_number();
+            pages.push((page.region, page.page_index, page.page_order));
+            Ok(())
+        })?;
+        Ok(pages)
+    }
+
+    /// Verification hook: the transaction id this reader registered
+    pub fn verif_id(&self) -> u64 {
+        self.tree.transaction_guard().id().raw_id()
+    }
+}
+
 impl Drop for WriteTransaction {
     fn drop(&mut self) {
         if !self.completed && !crate::panicking() && !self.mem.storage_failure() {
